@@ -24,8 +24,9 @@
 EXTENDS Naturals, Sequences, FiniteSets
 
 CONSTANTS Routes,         \* the route kinds probed (a set of strings chosen per tier)
-          Slice           \* "full": all 9216 configurations; "quick": authentication always configured (it is not a
-                          \* capability, it only makes the 401 route reachable) and no storage-less external config
+          Slice           \* "full": all 9216 configurations; "quick": the 1152 with authentication configured (it is
+                          \* not a capability, it only makes the 401 route reachable), maxResp = maxExt and
+                          \* proof = intro -- every switch still takes every value, every conditional header both ways
 
 Bool == {TRUE, FALSE}
 HeaderIds == {"maxreq", "maxresp", "maxext", "extenabled", "encodings", "upload", "maxupload", "proof",
@@ -35,7 +36,8 @@ ListValued == {"encodings", "echo"}
 AllConfigs == [maxReq : Bool, maxResp : Bool, maxExt : Bool, ext : {"none", "nostorage", "storage"},
                upload : Bool, maxUpload : Bool, comp : {"zg", "g", "none"}, sticky : Bool, echo : Bool,
                proof : Bool, intro : Bool, auth : Bool]
-Configs == IF Slice = "full" THEN AllConfigs ELSE {x \in AllConfigs : x.auth /\ x.ext # "nostorage"}
+InSlice(x) == Slice = "full" \/ (x.auth /\ (x.maxResp = x.maxExt) /\ (x.proof = x.intro))
+Configs == {x \in AllConfigs : InSlice(x)}
 
 \* a route kind is applicable to a configuration when the request can be made at all
 Applicable(cfg, r) ==
@@ -46,12 +48,13 @@ Applicable(cfg, r) ==
     [] OTHER                -> TRUE
 
 \* split for TLC's workers: a seed fixes six of the switches, Expand enumerates the rest and the routes
-Seeds == {[cfg |-> g, route |-> "seed"] :
-            g \in {x \in Configs : ~x.maxResp /\ ~x.maxExt /\ ~x.maxUpload /\ ~x.echo /\ ~x.proof /\ ~x.intro}}
-Expand(p) == {[cfg |-> [p.cfg EXCEPT !.maxResp = b1, !.maxExt = b2, !.maxUpload = b3, !.echo = b4, !.proof = b5,
-                                   !.intro = b6], route |-> r] :
-                b1 \in Bool, b2 \in Bool, b3 \in Bool, b4 \in Bool, b5 \in Bool, b6 \in Bool,
-                r \in {x \in Routes : Applicable(p.cfg, x)}}
+SeedOf(g) == [g EXCEPT !.maxResp = FALSE, !.maxExt = FALSE, !.maxUpload = FALSE, !.echo = FALSE, !.proof = FALSE,
+                        !.intro = FALSE]
+Seeds == {[cfg |-> SeedOf(g), route |-> "seed"] : g \in Configs}
+Variants(g) == {[g EXCEPT !.maxResp = b1, !.maxExt = b2, !.maxUpload = b3, !.echo = b4, !.proof = b5, !.intro = b6] :
+                  b1 \in Bool, b2 \in Bool, b3 \in Bool, b4 \in Bool, b5 \in Bool, b6 \in Bool}
+Expand(p) == {[cfg |-> g, route |-> r] : g \in {x \in Variants(p.cfg) : InSlice(x)},
+                                          r \in {x \in Routes : Applicable(p.cfg, x)}}
 Cases == UNION {Expand(p) : p \in Seeds}
 
 \* ---------------------------------------------------------------- the table
@@ -82,8 +85,10 @@ Scalar(cfg, vals, h) ==
     [] OTHER            -> "true"
 ListOf(cfg, vals, h) == IF h = "encodings" THEN Encodings(cfg) ELSE vals.echo
 
-Expected(c) == [emitted |-> [h \in HeaderIds |-> Emitted(c.cfg, h)], encodings |-> Encodings(c.cfg),
-                externalization |-> IF c.cfg.ext = "storage" THEN "true" ELSE "false"]
+HeaderOrder == <<"maxreq", "maxresp", "maxext", "extenabled", "encodings", "upload", "maxupload", "proof", "sticky",
+                 "ttl", "echo", "introspect">>
+\* the oracle: which capability headers must be on the response (values: Scalar / ListOf above)
+Expected(c) == SelectSeq(HeaderOrder, LAMBDA h : Emitted(c.cfg, h))
 
 \* ---------------------------------------------------------------- table sanity (TLC, every case)
 AlwaysTwo(c) == Emitted(c.cfg, "extenabled") /\ Emitted(c.cfg, "encodings")
@@ -91,7 +96,8 @@ RouteIndependent(c) == \A r \in Routes : Expected([c EXCEPT !.route = r]) = Expe
 UploadBytesNeedsProvider(c) == Emitted(c.cfg, "maxupload") => Emitted(c.cfg, "upload")
 StickyFamily(c) == /\ Emitted(c.cfg, "ttl") <=> Emitted(c.cfg, "sticky")
                    /\ Emitted(c.cfg, "echo") => Emitted(c.cfg, "sticky")
-EmittedOnlyFromTable(c) == \A h \in HeaderIds : Emitted(c.cfg, h) \in Bool
+EmittedOnlyFromTable(c) == /\ \A h \in HeaderIds : Emitted(c.cfg, h) \in Bool
+                           /\ {HeaderOrder[i] : i \in 1..Len(HeaderOrder)} = HeaderIds
 ApplicableCase(c) == Applicable(c.cfg, c.route)
 
 \* ---------------------------------------------------------------- judging what the real code did
